@@ -17,7 +17,7 @@ from .C09 import expect_same, first_diff
 
 
 class SolveAnalysis:
-    def __init__(self, repo, validation=True, aux=True, tracked=True, opt_state_given=False):
+    def __init__(self, repo, validation=True, aux=True, tracked=True, opt_state_given=False, verbose=True):
         self.E = E = SolveEnv(repo)
         self.validation, self.aux = validation, aux
         self.loss = LossToken()
@@ -40,7 +40,7 @@ class SolveAnalysis:
         self.result = E.with_while_hook(hook, lambda: solve(
             self.n_iter, self.init_params, self.data0, self.loss, self.opt, print_loss_every=K('print_every'),
             opt_state=self.opt_state0, tracked_params=self.tracked, param_data=self.pdata0, obs_data=self.odata0,
-            validation=self.val0, verbose=True))
+            validation=self.val0, verbose=verbose))
         if 'body' not in self.rec:
             raise Inconclusive("solve() did not reach jax.lax.while_loop")
 
